@@ -1,5 +1,5 @@
 """C13: sampling-violation counter counts exactly the out-of-tolerance gaps."""
-import random, sys, os
+import random, sys, os, re
 sys.path.insert(0, os.path.join(os.path.dirname(os.path.abspath(__file__)), "..", "harness"))
 import core, mc, runner
 from astlib import *
@@ -52,6 +52,25 @@ def main():
     rep.extra["apalache"] = {"spec": "spec/apalache/CounterAp.tla", "inv": "Inv", "length": L, "outcome": "NoError", "wall_s": round(w1, 1),
                              "symbolic": "P in 1..2000, Tol in 0..P, non-decreasing stamps in 0..100000, Reset anywhere",
                              "deviation_InvOpenBand": "refuted"}
+    # TLAPS: the counter invariant is inductive for time-stamp sequences of ANY length, every period and tolerance
+    # (spec/proofs/CounterInd.tla: InitInv, StepInv, C13Unbounded)
+    import tempfile
+    os.makedirs(os.path.join(core.VERIF, "build"), exist_ok=True)
+    pd = tempfile.mkdtemp(prefix="c13_tlaps_", dir=os.path.join(core.VERIF, "build"))
+    shutil.copy(os.path.join(core.VERIF, "spec", "proofs", "CounterInd.tla"), pd)
+    try:
+        t0 = _t.time()
+        pr = subprocess.run(["tlapm", "--threads", "8", "CounterInd.tla"], cwd=pd, stdout=subprocess.PIPE, stderr=subprocess.STDOUT,
+                            universal_newlines=True, timeout=900)
+        m_ = re.search(r"All (\d+) obligations proved", pr.stdout)
+        if not m_:
+            raise core.Machinery("tlapm did not prove spec/proofs/CounterInd.tla\n" + pr.stdout[-1500:])
+        rep.extra["tlaps"] = {"module": "spec/proofs/CounterInd.tla", "theorems": ["BadFinite", "InitInv", "StepInv", "C13Unbounded"],
+                              "obligations_proved": int(m_.group(1)), "wall_s": round(_t.time() - t0, 1),
+                              "statement": "viol = Cardinality of the out-of-tolerance gaps since the last reset is an inductive invariant of "
+                                           "the counter machine, for all integer P, Tol, time-stamps and all lengths"}
+    finally:
+        shutil.rmtree(pd, ignore_errors=True)
     rng = random.Random(core.seed() * 7919 + 13)
     n = 900 if quick else 20000
     cases = []
